@@ -126,23 +126,34 @@ impl Axecutor {
             displacement,
             segment,
         } = o;
+        // With the address-size override prefix (0x67) base and index are 32-bit registers and the
+        // effective address is truncated to 32 bits (before a segment base is added)
+        let is_32 = |r: SupportedRegister| iced_x86::Register::from(r).is_gpr32();
+        let addr32 = base.map(is_32).unwrap_or(false) || index.map(is_32).unwrap_or(false);
+        let read = |r: SupportedRegister, what: &str| -> u64 {
+            if is_32(r) {
+                self.reg_read_32(r).expect(what)
+            } else {
+                self.reg_read_64(r).expect(what)
+            }
+        };
+
         let mut addr: u64 = 0;
         if let Some(base) = base {
-            addr = addr.wrapping_add(
-                self.reg_read_64(base)
-                    .expect("reading memory operand base register"),
-            );
+            addr = addr.wrapping_add(read(base, "reading memory operand base register"));
         }
         if let Some(index) = index {
             addr = addr.wrapping_add(
-                self.reg_read_64(index)
-                    .expect("reading memory operand index register")
-                    .wrapping_mul(scale as u64),
+                read(index, "reading memory operand index register").wrapping_mul(scale as u64),
             );
         }
 
         // This overflow is explicitly allowed, as x86-64 encodes negative values as signed integers
         addr = addr.wrapping_add(displacement);
+
+        if addr32 {
+            addr &= 0xffff_ffff;
+        }
 
         if let Some(reg) = segment {
             match reg {
@@ -201,6 +212,8 @@ impl Axecutor {
                     iced_x86::Register::None => None,
                     // If base is RIP, we can use the displacement as-it. No need to add it to the memory address
                     iced_x86::Register::RIP => None,
+                    // the same holds for EIP (RIP-relative addressing under the address-size override prefix)
+                    iced_x86::Register::EIP => None,
                     r => Some(SupportedRegister::from(r)),
                 };
                 let index = match i.memory_index() {
